@@ -23,6 +23,7 @@ let arg_flags t = (t.[0] = 'T', t.[1] = 'T', t.[2] = 'T')
 let arg_op t = match split '/' t with
   | ["mw"; i; w] -> Mut (MSetWitness (arg_nat i, arg_wit w))
   | ["aw"; i; w] -> Mut (MAssignWitness (arg_nat i, arg_wit w))
+  | ["iw"; i; w] -> Mut (MExtendWitness (arg_nat i, arg_wit w))
   | ["as"; i; s] -> Mut (MAssignInScript (arg_nat i, arg_bytes s))
   | ["ah"; i; s] -> Mut (MAssignInHash (arg_nat i, arg_bytes s))
   | ["ai"; i; z] -> Mut (MAssignInIndex (arg_nat i, arg_z z))
